@@ -25,6 +25,27 @@ ALLOWED_CLASSES = {('CamouflageInfo', 'CamouflageInfo'), ('PlayerModeDef', 'Play
 EVIL = os.path.join(common.WORK, 'c18-outside')
 MARKER = ('colorsys', 'rgb_to_hsv')
 HOSTILE = b'ccolorsys\nrgb_to_hsv\n(K\x01K\x02K\x03tR.'
+EXPR = b"__import__('colorsys').rgb_to_hsv(0.2, 0.4, 0.6)"
+
+
+def _u(b):
+    return b'X' + len(b).to_bytes(4, 'little') + b
+
+
+def stateful_payloads():
+    """pickles that name allow-listed globals only and hand an allow-listed data class a state chosen by the file: dunder keys, a text that
+    would be code if anything evaluated it, nested once more. Rebuilding a data object must not evaluate, import or call any of it."""
+    keys = [b'__annotations__', b'__class__', b'__dict__', b'__reduce__', b'__wrapped__', b'__getstate__', b'__init__', b'playerModeType', EXPR]
+    inner = b'}(' + b''.join(_u(k) + _u(EXPR) for k in keys) + b'u'
+    state = b'}(' + b''.join(_u(k) + (inner if i % 2 == 0 else _u(EXPR)) for i, k in enumerate(keys)) + b'u'
+    out = {
+        'newobj-build': b'\x80\x02cPlayerModeDef\nPlayerMode\n)\x81' + state + b'b.',
+        'reconstructor-build': b'\x80\x02ccopy_reg\n_reconstructor\n(cPlayerModeDef\nPlayerMode\nc__builtin__\nobject\nNtR' + state + b'b.',
+        'in-roster': b'\x80\x02](](K\x00cPlayerModeDef\nPlayerMode\n)\x81' + state + b'b\x86ea.',
+    }
+    return out
+
+
 PICKLE_METHODS = ['onArenaStateReceived', 'onGameRoomStateChanged', 'onNewPlayerSpawnedInBattle', 'receiveDamageStat']
 
 
@@ -90,7 +111,10 @@ def judge(chk, rec, own_files, hostile_method=None):
             chk.report('parsing %s makes the unpickler locate %s.%s, a callable named by the file' % (name if not hostile_method else 'a battle with a crafted %s argument' % hostile_method, e[1], e[2]),
                        {'kind': 'find_class', 'file': name, 'class': e[1:3], 'method': hostile_method}, key=key)
         elif e[0] == 'import' and e[1].split('.')[0] == MARKER[0]:
-            pass        # consequence of the find_class above
+            if not any(x[0] == 'pickle.find_class' and (x[1], x[2]) == MARKER for x in rec['events']):
+                # not the consequence of a find_class reported above: something evaluated text from the file
+                chk.report('parsing %s imports %s, a module named only inside a text value of the file' % (name if not hostile_method else 'a battle with a crafted %s argument' % hostile_method, e[1]),
+                           {'kind': 'import', 'file': name, 'module': e[1], 'method': hostile_method})
         elif e[0] == 'open' and not allowed_open(e[1], own_files):
             chk.report('parsing %s opens %s' % (name, e[1]), {'kind': 'open', 'file': name, 'path': e[1]})
         elif e[0] in ('subprocess.Popen', 'os.system', 'os.exec', 'os.spawn', 'os.posix_spawn', 'socket.connect', 'os.remove', 'os.rename', 'shutil.rmtree'):
@@ -297,6 +321,14 @@ def run_battles(chk, recs, chosen, with_benign=True):
                 p = hostile_battle(g, v, chk.seed, meth)
                 if p:
                     hostile.append((p, meth))
+        # allow-listed classes rebuilt with a state the file chooses (newest and oldest chosen wows version, two methods each)
+        ws = sorted([x for x in chosen if x[0] == 'wows'], key=lambda x: tuple(int(c) for c in x[1].split('_')[:3]))
+        for g, v in ([ws[0], ws[-1]] if len(ws) > 1 else ws):
+            for k, (nm, payload) in enumerate(sorted(stateful_payloads().items())):
+                meth = PICKLE_METHODS[(k + len(v)) % len(PICKLE_METHODS)]
+                p = hostile_battle(g, v, chk.seed, meth, payload=payload, tag='c18s-' + nm)
+                if p:
+                    hostile.append((p, meth + ':' + nm))
         own = set(recs + benign + [h[0] for h in hostile])
         for rec in run_parse(recs + benign) if recs + benign else []:
             chk.count(('parse', os.path.basename(rec['file'])), nontrivial=bool(rec.get('hidden')),
